@@ -1151,8 +1151,6 @@ def main(argv):
     cov = {"obligations": pinfo["obligations"], "discharged": pinfo["discharged"],
            "checker_cmd": "cd /verif/coq && coq_makefile -f _CoqProject -o Makefile && make -j16 " + " ".join(TARGETS) + " && coqc -Q . Dae C17_Props.v (Print Assumptions captured)",
            "theorems": pinfo.get("theorems", []), "print_assumptions": pinfo.get("assumptions", []),
-           "refuted_full_statements": ["C17_parse_never_crashes_full (witness: an outbound function with an empty parameter list)",
-                                       "C17_over_limit_is_error_full (witness: a domain match set at index MaxMatchSetLen)"],
            "translated_from_source": {k: facts.get(k) for k in ("sets", "max_match_set_len", "lexer_shape_sha256", "parser_atn_sha256")},
            "trusted_base": vlib.TRUSTED_BASE_COMMON + [
                "the reading of ANTLR 4's lexer ATN simulator (longest match, first rule on ties, non-greedy loops) and of the 19 grammar rules as an LL(2) recursive descent; tied to the generated lexer/parser only by the correspondence run",
@@ -1174,7 +1172,7 @@ def main(argv):
             return out.finish()
 
         # ---- parse stream
-        ng, nn, ne, nr, nb = (60, 80, 25, 60, 30) if not thorough else (800, 1200, 200, 1200, 500)
+        ng, nn, ne, nr, nb = (50, 70, 20, 50, 30) if not thorough else (800, 1200, 200, 1200, 500)
         corpus = []
         cdir = os.path.join(vlib.VERIF, "corpus", PID)
         if os.path.isdir(cdir):
@@ -1262,7 +1260,7 @@ def main(argv):
 
         log("parse stream classified and shrunk")
         # ---- merge stream
-        nm = 60 if not thorough else 1000
+        nm = 40 if not thorough else 1000
         mcases = fixed_merge_cases() + [gen_merge_case(rng) for _ in range(nm)]
         merge_fail_spec, merge_fail_model = [], []
         msigs = []
@@ -1309,6 +1307,12 @@ def main(argv):
         log("build contract done")
         cap_cases = gen_cap_cases(rng, limit, thorough)
         risky_cases = gen_compile_cases(rng, 50)
+        for c in corpus:
+            if c.get("kind") == "cap":
+                cap_cases.insert(0, dict(c, text=cap_text(0, c["domains"], c["total"], dns=(c["stage"] == "dns"))))
+            elif c.get("kind") == "risky":
+                risky_cases.insert(0, {"kind": "risky", "stage": "routing", "snippet": c["snippet"],
+                                       "text": "global {}\nrouting {\n%s\nfallback: direct\n}\n" % c["snippet"]})
         ccases = cap_cases + risky_cases
 
         def creq(c):
@@ -1341,7 +1345,15 @@ def main(argv):
             if err:
                 tie_broken = tie_broken or err
             else:
-                cap_model_fail = [cap_idx[j] for j, e in enumerate(per) if 1 in e]
+                cap_model_fail = [cap_idx[j] for j, e in enumerate(per) if 1 in e or 3 in e]
+                for j, e in enumerate(per):
+                    if 2 in e:
+                        c = ccases[cap_idx[j]]
+                        out.violation("capacity_accepted_" + c["stage"],
+                                      {"op": "compile", "stage": c["stage"], "total_rules": c["total"], "domain_rule_positions": c["domains"], "text_b64": b64(c["text"])},
+                                      "a %s program of %d match sets (limit %d) is accepted instead of being refused with an error" % (c["stage"], c["total"] + 1, limit),
+                                      matchers=["C17/capacity-accepted/" + c["stage"]])
+                        break
         seen = set()
         for i in crashes:
             c, r = ccases[i], cres[i]
